@@ -93,7 +93,7 @@ CouponList<A>* CouponList<A>::newList(const void* bytes, size_t len, const A& al
 
   target_hll_type tgtHllType = HllSketchImpl<A>::extractTgtHllType(data[hll_constants::MODE_BYTE]);
 
-  const uint8_t lgK = data[hll_constants::LG_K_BYTE];
+  const uint8_t lgK = HllUtil<A>::checkLgK(data[hll_constants::LG_K_BYTE]);
   const bool compact = ((data[hll_constants::FLAGS_BYTE] & hll_constants::COMPACT_FLAG_MASK) ? true : false);
   const bool oooFlag = ((data[hll_constants::FLAGS_BYTE] & hll_constants::OUT_OF_ORDER_FLAG_MASK) ? true : false);
   const bool emptyFlag = ((data[hll_constants::FLAGS_BYTE] & hll_constants::EMPTY_FLAG_MASK) ? true : false);
@@ -107,6 +107,19 @@ CouponList<A>* CouponList<A>::newList(const void* bytes, size_t len, const A& al
   if (len < expectedLength) {
     throw std::out_of_range("Byte array too short for sketch. Expected " + std::to_string(expectedLength)
                                 + ", found: " + std::to_string(len));
+  }
+
+  // the count must be the number of coupons actually present (an empty image holds none)
+  uint32_t numPresent = 0;
+  if (!emptyFlag) {
+    for (uint32_t i = 0; i < couponCount; ++i) {
+      uint32_t coupon;
+      std::memcpy(&coupon, data + hll_constants::LIST_INT_ARR_START + i * sizeof(uint32_t), sizeof(coupon));
+      if (coupon != hll_constants::EMPTY) ++numPresent;
+    }
+  }
+  if (numPresent != couponCount) {
+    throw std::invalid_argument("Possible corruption: coupon count does not match the coupons in the image");
   }
 
   ClAlloc cla(allocator);
@@ -144,7 +157,7 @@ CouponList<A>* CouponList<A>::newList(std::istream& is, const A& allocator) {
 
   const target_hll_type tgtHllType = HllSketchImpl<A>::extractTgtHllType(listHeader[hll_constants::MODE_BYTE]);
 
-  const uint8_t lgK = listHeader[hll_constants::LG_K_BYTE];
+  const uint8_t lgK = HllUtil<A>::checkLgK(listHeader[hll_constants::LG_K_BYTE]);
   const bool compact = ((listHeader[hll_constants::FLAGS_BYTE] & hll_constants::COMPACT_FLAG_MASK) ? true : false);
   const bool oooFlag = ((listHeader[hll_constants::FLAGS_BYTE] & hll_constants::OUT_OF_ORDER_FLAG_MASK) ? true : false);
   const bool emptyFlag = ((listHeader[hll_constants::FLAGS_BYTE] & hll_constants::EMPTY_FLAG_MASK) ? true : false);
@@ -170,6 +183,13 @@ CouponList<A>* CouponList<A>::newList(std::istream& is, const A& allocator) {
 
   if (!is.good())
     throw std::runtime_error("error reading from std::istream"); 
+
+  // the count must be the number of coupons actually present
+  uint32_t numPresent = 0;
+  for (const uint32_t coupon: sketch->coupons_) { if (coupon != hll_constants::EMPTY) ++numPresent; }
+  if (numPresent != couponCount) {
+    throw std::invalid_argument("Possible corruption: coupon count does not match the coupons in the image");
+  }
 
   return ptr.release();
 }
